@@ -306,7 +306,7 @@ func execute(cs Case, wantC06, wantC07 bool) runOut {
 			// every prefix is enumerated as a history of its own, so the oracles run at the end - but
 			// the READS are issued after every step: reading is part of the history (a cache may
 			// remember answers), only their judgement is left to the prefix's own run
-			if wantC07 {
+			if wantC07 && len(cs.History) <= 3 {
 				readsAgree(w.cache, ov, rm, modelOf(remotes[cs.Remote]), nil, cs.History[:i+1])
 			}
 			continue
